@@ -335,6 +335,7 @@ class NodeEnv:
     def finish(self, m, c, result):
         c.result = result
         c.state = 'done'
+        m.event('rpc_lin', c.cid, c.method)
         sched(m).wake(c.waiters)
 
     def maybe_fault(self, m, c):
